@@ -20,7 +20,7 @@ RULE = ('A program is a sequence of operators from {pos, neg, add, radd, sub, rs
         'np.float32(2), np.int16(3), np.float64(1), np.int64(0) on the right} and whole-recording column selections (slice, list, '
         'permutation, negative / reversed forms). It is built twice with the Python operators, on the reader and on the loaded '
         'array, then indexed with 4 row items; values+dtype must agree (NaN-aware) or both must raise '
-        'the same exception type. EVERY program of depth <= 2 (thorough: <= 3 on int16/array) on the '
+        'the same exception type. EVERY program of depth <= 2 (thorough: <= 3 on int16/array) and every depth-4 program selection / scalar op / selection / selection on the '
         'array backend, random programs of depth 3-6 on flat multi-file / npy / cbin / array readers of '
         'all dtypes, and random derivation trees (parent, children, siblings; every node re-evaluated '
         'after each new derivation, in shuffled order, with refused out-of-range accesses in between). non-trivial = distinct programs containing a '
@@ -183,6 +183,16 @@ def run_shard(desc, ctx):
             if idx % ns == sh:
                 run_case({'kind': 'program', 'backend': 'array', 'dtype': dt, 'program': prog,
                           'rows': 'std'}, ctx)
+    # column-heavy programs of depth 4: selection, scalar operator, two selections in a row (all forms)
+    colops = [a for a in alpha if a[0] == 'cols']
+    for x in colops:
+        for mid in (['mul', 2], ['add', 0.5], ['neg', None]):
+            for y in colops:
+                for z in colops:
+                    idx += 1
+                    if idx % ns == sh:
+                        run_case({'kind': 'program', 'backend': ['array', 'flat'][idx % 2], 'dtype': ['int16', 'float32'][idx % 3 % 2],
+                                  'program': [x, mid, y, z], 'rows': [slice(-4, -1), 3]}, ctx)
     if tier == 'thorough':
         for a in alpha:
             for b in alpha:
